@@ -37,7 +37,7 @@ End N.
 
 Lemma m_ended_silent_notify reopen rp s l s' : npcs s = NEnded -> nstep reopen rp s l s' ->
   is_env l = true \/ l = LWatch.
-Proof. intros He St. inversion St; subst; try congruence; [left; eapply estep_env_label; eauto|left; reflexivity|right; reflexivity]. Qed.
+Proof. intros He St. inversion St; subst; try congruence; [left; eapply estep_env_label; eauto|left; reflexivity|right; reflexivity|left; reflexivity]. Qed.
 
 Section P.
 Variables (reopen : bool) (c0 : option bytes) (tail : bool) (tr : list label) (s : pstate).
@@ -64,7 +64,7 @@ Proof. split; [exact (qP _ _ _ I)|intros F; apply (qN _ _ _ I F)]. Qed.
 End P.
 
 Lemma m_ended_silent_poll reopen s l s' : ppcs s = PEnded -> pstep reopen s l s' -> is_env l = true.
-Proof. intros He St. inversion St; subst; try congruence. eapply estep_env_label; eauto. Qed.
+Proof. intros He St. inversion St; subst; try congruence; [eapply estep_env_label; eauto|reflexivity]. Qed.
 
 (* ------------------------------------------------------------------ eventual delivery (Proofs/FollowLive.v) *)
 Definition ndrained c0 tail (s : nstate) : Prop := pre_of c0 tail ++ ndel s = all (nenv s).
@@ -127,3 +127,32 @@ Proof.
   repeat split; auto. intros X. destruct (qE _ _ _ I X) as [Y _]. congruence.
 Qed.
 End PL.
+
+(* ------------------------------------------------------------------ siblings *)
+(* activity on other entries of the directory, inserted anywhere in a log, changes neither what the
+   specification accepts nor the state it reaches *)
+Lemma siblings_spec ro tr : forall sp,
+  spec_run ro sp (filter (fun l => negb (is_sibling l)) tr) = spec_run ro sp tr.
+Proof.
+  induction tr as [|l tr IH]; intros sp; [reflexivity|]. destruct l; cbn [filter is_sibling negb spec_run];
+    try (destruct (spec_step ro sp _); [apply IH|reflexivity]). apply IH.
+Qed.
+(* ... nor the delivered stream and termination predicted by the functional projection *)
+Lemma siblings_model i :
+  model (mkcin (i_poll i) (i_reopen i) (i_tail i) (i_c0 i) (filter (fun l => negb (is_sibling l)) (i_hist i))) = model i.
+Proof.
+  unfold model, expected, expected_term. cbn [i_reopen i_c0 i_tail i_hist].
+  assert (forall h, flat_map (fun l => match l with LAppend b => b | _ => [] end) (filter (fun l => negb (is_sibling l)) h)
+                    = flat_map (fun l => match l with LAppend b => b | _ => [] end) h) as A.
+  { induction h as [|l h IH]; [reflexivity|]. destruct l; cbn; rewrite ?IH; reflexivity. }
+  assert (forall h, existsb is_remove (filter (fun l => negb (is_sibling l)) h) = existsb is_remove h) as B.
+  { induction h as [|l h IH]; [reflexivity|]. destruct l; cbn; rewrite ?IH; reflexivity. }
+  rewrite A, B. reflexivity.
+Qed.
+(* in the transition systems a sibling step changes nothing but the queue of filtered events *)
+Lemma sibling_step_notify ro rp s s' : nstep ro rp s LSibling s' ->
+  nenv s' = nenv s /\ nfd s' = nfd s /\ npcs s' = npcs s /\ sigW s' = sigW s /\ sigD s' = sigD s /\ ndel s' = ndel s /\
+  queue s' = queue s ++ [EvOther].
+Proof. intros St. inversion St; subst; [inversion H|cbn; repeat split; reflexivity]. Qed.
+Lemma sibling_step_poll ro s s' : pstep ro s LSibling s' -> s' = s.
+Proof. intros St. inversion St; subst; [inversion H|reflexivity]. Qed.
